@@ -47,7 +47,7 @@ func cases(tier string) int {
 	if tier == "thorough" {
 		return 7000 // 5000 reserved + 2000 DRA
 	}
-	return 450 // 300 reserved + 150 DRA
+	return 1200 // 800 reserved + 400 DRA
 }
 
 // isDRA interleaves the two parts so that every batch (and the race pass, which runs a prefix of each batch)
